@@ -14,6 +14,7 @@ PROPS = {
             "lcm.argmax.argmax",
             "lcm.argmax.segment_argmax",
             "lcm.discrete_problem._solve_discrete_problem_no_shocks",
+            "C01.period-step",
         ],
         "families": {
             "quick": "argmax: ranks 1..2 x every axis argument (None, int, tuples in both orders) x {where+initial, initial, neither}; segment_argmax: trailing rank 0..1; no-shock reduction: ranks 1..3 x every choice-axis subset x segments on/off. All sizes, contents, masks, segmentations symbolic.",
@@ -224,7 +225,7 @@ PROPS = {
     },
     "C09": {
         "contracts": ["C09.frame", "lcm.functools.get_union_of_arguments", "lcm.input_processing.create_params_template.create_params_template", "lcm.input_processing.process_model.process_model"],
-        "hash_seeds": {"contracts": ["lcm.model_functions.get_utility_and_feasibility_function", "C01.period-step"], "seeds": [1, 2], "seeds_thorough": [1, 2, 3, 4, 5]},
+        "hash_seeds": {"contracts": ["lcm.model_functions.get_utility_and_feasibility_function", "C01.period-step", "C04.key-discipline"], "seeds": [1, 2], "seeds_thorough": [1, 2, 3, 4, 5]},
         "families": {"quick": "Skel-quick: frame conditions over get_lcm_function and repeated, interleaved solve calls with two params objects; the utility-and-feasibility and period-step contracts re-proved in processes with PYTHONHASHSEED 1 and 2 (set iteration orders)", "thorough": "Skel-thorough; PYTHONHASHSEED 1..5"},
         "not_decided": ["JIT/XLA cache behaviour and bit-equality across processes (outside the model)", "stores performed inside natively executed libraries (dags, pandas) are not observed"],
         "assumptions": COMMON_ASSUMPTIONS + ["library contracts are pure functions of their arguments"],
